@@ -49,6 +49,12 @@ class C09(core.Check):
             ("remotertls", True, [("tx", b"hello"), ("svc",), ("svc",)], [("acc", 2), ("f", T.SSLEOF)], [("d", b"abc"), ("f", T.SSLEOF)]),
             ("remotertls", False, [("tx", b"hello world"), ("ss",)] + [("ss",)] * 12, [("acc", 1)] * 14, []),
             ("client", True, [("tx", b"a" * 100), ("ss",), ("tx", b"b" * 100), ("ss",), ("ss",)], [("acc", 150), ("acc", 10), ("acc", 1000)], []),
+            # the other entry points and every wire log configuration
+            ("client", "std", [("tx", b"abc"), ("svc",), ("sro",), ("clr",), ("sro",)], [("acc", 2)], [("d", b"hello"), ("d", b"xy"), ("d", b"z")]),
+            ("remotertls", "samed", [("send1", b"hello"), ("recv1",), ("recv1",), ("send1", b"")], [("acc", 3)], [("d", b"ab"), ("d", b"")]),
+            ("remoter", "file", [("tx", b"abcdef"), ("ss",), ("sr",), ("ss",)], [("acc", 4), ("acc", 9)], [("d", b"qrs")]),
+            ("clienttls", "ctx", [("tx", b"abcdef"), ("svc",), ("svc",)], [("acc", 4), ("acc", 9)], [("d", b"qrs")]),
+            ("remoter", True, [("sr",), ("sro",), ("recv1",)], [], [("d", bytes(range(40))), ("f", e), ("d", bytes(range(9)))], 16),
             # a backlog larger than .bs, a short send, then room again at the very next send
             ("remoter", True, [("tx", bytes(range(100))), ("ss",), ("ss",), ("ss",), ("ss",)], [("acc", 5), ("acc", 1 << 30), ("acc", 1 << 30), ("acc", 1 << 30)], [], 16),
             ("remotertls", True, [("tx", bytes(i % 251 for i in range(20000))), ("svc",), ("svc",), ("svc",), ("svc",)],
@@ -82,6 +88,35 @@ class C09(core.Check):
                 sends += [("acc", rng.choice([1 << 30, 1 << 30, unit, rng.randrange(1, unit)])) for _ in range(rng.randrange(2, 8))]
                 ops += [(rng.choice(["ss", "svc"]),) for _ in range(rng.randrange(2, 8))]
                 case = (kind, rng.random() < 0.8, ops, sends, [])
+                yield case if bs is None else case + (bs,)
+                continue
+            if i % 7 == 3:
+                # other public entry points: serviceReceiveOnce, clearRxbs, receive()/send(data) called by the application,
+                # every WireLog configuration, reads longer than .bs (short reads leave the rest in the kernel)
+                wlm = rng.choice([False, "raw", "std", "samed", "file", "ctx", "std", "samed"])
+                alpha = (lambda n_: bytes(rng.randrange(97, 123) for _ in range(n_))) if wlm not in (False, "raw") else (lambda n_: T.gen_bytes(rng, n_))
+                bs = rng.choice([None, None, 4, 16, 64])
+                unit = bs or 8096
+                style = rng.choice(["direct", "once", "mixed"])
+                recvs = []
+                for _ in range(rng.randrange(0, 6)):
+                    q = rng.random()
+                    if q < 0.15:
+                        recvs.append(("f", T.gen_fault_code(rng, kind, rng.choice(["wb", "conn"]))))
+                    elif q < 0.22:
+                        recvs.append(("d", b""))
+                    else:
+                        recvs.append(("d", alpha(rng.choice([1, 3, unit, unit + 1, 2 * unit, rng.randrange(1, 3 * unit + 2)]) if bs else rng.choice([1, 3, 9, 30]))))
+                sends = T.gen_sends(rng, kind, rng.randrange(0, 6), 12, fault_p=0.15, flavour=rng.choice(["wb", "conn"]))
+                ops = []
+                for _ in range(rng.randrange(2, 12)):
+                    if style == "direct":
+                        ops.append(rng.choice([("recv1",), ("recv1",), ("send1", alpha(rng.choice([0, 1, 5, 12])))]))
+                    elif style == "once":
+                        ops.append(rng.choice([("sro",), ("sro",), ("clr",), ("tx", alpha(rng.choice([1, 7]))), ("ss",), ("sr",)]))
+                    else:
+                        ops.append(rng.choice([("sro",), ("clr",), ("recv1",), ("send1", alpha(3)), ("tx", alpha(5)), ("svc",), ("ss",), ("sr",)]))
+                case = (kind, wlm, ops, sends, recvs)
                 yield case if bs is None else case + (bs,)
                 continue
             mode = rng.random()
@@ -137,7 +172,8 @@ class C09(core.Check):
         if case[0] == "real":
             return ("noop",)
         kind, wl, ops, sends, recvs = case[:5]
-        return ("conn", kind, bool(wl), [tuple(o) for o in ops], [tuple(s) for s in sends], [tuple(r) for r in recvs])
+        bs = case[5] if len(case) > 5 else 8096
+        return ("conn", kind, bool(wl), [tuple(o) for o in ops], [tuple(s) for s in sends], T.chop(recvs, bs))
 
     def run_impl(self, case):
         if case[0] == "real":
@@ -157,6 +193,8 @@ class C09(core.Check):
             yield ("real", rng.random() < 0.5, rng.choice(["c2s", "s2c"]), sizes, rng.choice([1024, 2048, 8192]), rng.choice([1, 2, 5, 17]), rng.randrange(1 << 30))
 
     def oracle(self, case, obs):
+        if case[0] in ('real',) and len(obs) == 2 and obs[0] == "EXC":
+            return ["escaped:" + obs[1]]
         if case[0] == "real":
             connected, prefix_ok, delivered, wtx, wrx, total = obs
             bad = []
@@ -176,18 +214,45 @@ class C09(core.Check):
         steps, (txbs, rxbs, kacc, kdel, wtx, wrx, cutoff) = obs
         bad = []
         sofar = 0
-        for op, (st, nacc, ntx, nrx, cut) in zip(ops, steps):
+        direct_tx = b""
+        direct_rx = b""
+        cleared = 0
+        prev_nrx = 0
+        for op, (st, nacc, ntx, nrx, cut, ret) in zip(ops, steps):
             if op[0] == "tx":
                 sofar += len(op[1])
+            elif op[0] == "send1" and st == "ok":
+                if not isinstance(ret, int) or not 0 <= ret <= len(op[1]):
+                    bad.append("direct-send-count")
+                else:
+                    sofar += ret
+                    direct_tx += op[1][:ret]
+            elif op[0] == "recv1" and st == "ok" and ret:
+                direct_rx += ret
+            elif op[0] == "clr":
+                cleared += prev_nrx
+                if nrx != 0:
+                    bad.append("clear-left-bytes")
+            prev_nrx = nrx
             if nacc + ntx != sofar:
                 bad.append("bytes-lost-or-duplicated")
                 break
         pay = _payload(ops)
-        if kacc + txbs != pay:
-            bad.append("peer-not-prefix-in-order")
+        has_send1 = any(o[0] == "send1" for o in ops)
+        if not has_send1:
+            if kacc + txbs != pay:
+                bad.append("peer-not-prefix-in-order")
+        elif not pay and kacc != direct_tx:
+            bad.append("direct-send-bytes")
         alldata = b"".join(r[1] for r in recvs if r[0] == "d")
-        if rxbs != kdel or not alldata.startswith(rxbs):
+        if not alldata.startswith(kdel):
             bad.append("rx-not-exact")
+        if len(kdel) != len(direct_rx) + cleared + len(rxbs):
+            bad.append("rx-bytes-lost-or-duplicated")
+        if not any(o[0] in ("recv1", "clr") for o in ops) and rxbs != kdel:
+            bad.append("rx-not-exact")
+        if not any(o[0] in ("sr", "sro", "svc") for o in ops) and direct_rx != kdel:
+            bad.append("direct-receive-bytes")
         if wl and (wtx != kacc):
             bad.append("wirelog-tx")
         if wl and (wrx != kdel):
@@ -203,14 +268,15 @@ class C09(core.Check):
             last_tx = max([i for i, o in enumerate(ops) if o[0] == "tx"], default=-1)
             nsvc_all = sum(1 for o in ops if o[0] in ("ss", "svc"))
             nsvc_after = sum(1 for o in ops[last_tx + 1:] if o[0] in ("ss", "svc"))
-            if all(s[0] == "acc" and s[1] >= 1 for s in sends) and len(sends) >= nsvc_all:
+            if all(s[0] == "acc" and s[1] >= 1 for s in sends) and len(sends) >= nsvc_all and not has_send1:   # direct sends use up kernel responses too
                 # every service call on a non-empty buffer moved at least one byte
                 if nsvc_after >= len(pay) and txbs:
                     bad.append("healthy-not-drained")
                 big = [s[1] for s in sends]
                 if big and min(big) >= len(pay) and nsvc_after >= 1 and txbs:
                     bad.append("healthy-not-drained")
-            if all(r[0] == "d" for r in recvs) and any(o[0] in ("sr", "svc") for o in ops) and rxbs != alldata:
+            if all(r[0] == "d" for r in recvs) and any(o[0] in ("sr", "svc") for o in ops) and rxbs != alldata \
+                    and not any(o[0] in ("recv1", "clr") for o in ops):
                 bad.append("healthy-not-all-received")
         return sorted(set(bad))
 
@@ -221,6 +287,8 @@ class C09(core.Check):
         return None
 
     def nontrivial(self, case, obs):
+        if case[0] in ('real',) and len(obs) == 2 and obs[0] == "EXC":
+            return True
         if case[0] == "real":
             return obs[5] > 20000
         kind, wl, ops, sends, recvs = case[:5]
@@ -232,10 +300,15 @@ class C09(core.Check):
         return partial and (ntx >= 2 or nrx >= 2)
 
     def features(self, case, obs):
+        if case[0] in ('real',) and len(obs) == 2 and obs[0] == "EXC":
+            return ["escaped"]
         if case[0] == "real":
             return ["real-loopback", "real:" + ("tls" if case[1] else "plain"), "real:" + case[2], "real-bytes:" + ("<100k" if obs[5] < 100000 else ">=100k")]
         kind, wl, ops, sends, recvs = case[:5]
-        f = [kind, "wl" if wl else "nowl", f"ntx={min(4, sum(1 for o in ops if o[0] == 'tx'))}"]
+        f = [kind, ("wl:" + ("raw" if wl is True else wl)) if wl else "nowl", f"ntx={min(4, sum(1 for o in ops if o[0] == 'tx'))}"]
+        for kk in ("sro", "clr", "recv1", "send1"):
+            if any(o[0] == kk for o in ops):
+                f.append("op:" + kk)
         bsz = case[5] if len(case) > 5 else 8096
         if len(_payload(ops)) > bsz:
             f.append("backlog>bs")
